@@ -95,7 +95,7 @@ def c16_job(job):
         mon = os.path.join(wd, "mon")
         os.makedirs(mon)
         m = tlc.run_monitor(render_scenario_tla(cs), trace, workdir=mon)
-        res["fails"] = [f for f in m.fails() if f[0] != "DRIFT"]
+        res["fails"] = [f for f in m.fails() if f[0] not in ("DRIFT", "BEYOND")]
         res["drift"] = len([f for f in m.fails() if f[0] == "DRIFT"])
         if res["fails"]:
             os.makedirs(common.REPLAY_DIR, exist_ok=True)
@@ -370,7 +370,7 @@ def c20_job(job):
         mon = os.path.join(wd, "mon")
         os.makedirs(mon)
         m = tlc.run_monitor(render_scenario_tla(cs), trace, workdir=mon)
-        res["fails"] = [f for f in m.fails() if f[0] != "DRIFT"]
+        res["fails"] = [f for f in m.fails() if f[0] not in ("DRIFT", "BEYOND")]
         res["drift"] = sorted(set(f[1] for f in m.fails() if f[0] == "DRIFT"))
         # the largest total / smallest host count actually seen on the real environment
         for line in open(trace):
